@@ -226,3 +226,55 @@ func (n *snode) findFirst(x float64) *float64 {
 	}
 	return nil
 }
+
+type grid struct {
+	Rows, Cols int
+	Data       []float64
+}
+
+// want:ROWMAJOR the row counter is multiplied by the number of rows.
+func (g *grid) PaddedBad() []float64 {
+	stride := g.Rows + 2
+	out := make([]float64, (g.Rows+2)*(g.Cols+2))
+	for row := -1; row <= g.Rows; row++ {
+		for col := -1; col <= g.Cols; col++ {
+			out[(row+1)*stride+col+1] = 1
+		}
+	}
+	return out
+}
+
+// clean:ROWMAJOR
+func (g *grid) PaddedGood() []float64 {
+	stride := g.Cols + 2
+	out := make([]float64, (g.Rows+2)*(g.Cols+2))
+	for row := -1; row <= g.Rows; row++ {
+		for col := -1; col <= g.Cols; col++ {
+			out[(row+1)*stride+col+1] = 1
+		}
+	}
+	return out
+}
+
+// silent:ROWMAJOR a window of a larger grid: the stride is neither extent.
+func (g *grid) Window(x0, x1, y0, y1 int) float64 {
+	var sum float64
+	for y := y0; y < y1; y++ {
+		for x := x0; x < x1; x++ {
+			sum += g.Data[y*g.Cols+x]
+		}
+	}
+	return sum
+}
+
+// clean:ROWMAJOR column-major traversal of a row-major grid.
+func (g *grid) Transposed() float64 {
+	var sum float64
+	for col := 0; col < g.Cols; col++ {
+		for row := 0; row < g.Rows; row++ {
+			idx := row*g.Cols + col
+			sum += g.Data[idx]
+		}
+	}
+	return sum
+}
